@@ -167,6 +167,11 @@ Verdict(e) ==
        IN  [c12 |-> C12Verdict(e, postTree, parPost), c13 |-> C13Verdict(e, preTree, postTree, parPre, ownPre),
             c14 |-> C14Verdict(e, postTree)]
   ELSE IF e.event = "query" THEN [c12 |-> [v |-> "ok"], c13 |-> [v |-> "ok"], c14 |-> QueryVerdict(e)]
+  ELSE IF e.event = "crash"
+  THEN \* the call (or the observation of the state it left) never returned, or took the process down: a call
+       \* must return a value or an exception, and no history may leave a structure that cannot be walked
+       LET x == [v |-> "VIOLATION", why |-> "a DOM call or the traversal of the state it left did not return", how |-> e.how, call |-> e.call]
+       IN  [c12 |-> x, c13 |-> x, c14 |-> x]
   ELSE [c12 |-> [v |-> "ok"], c13 |-> [v |-> "ok"], c14 |-> [v |-> "ok"]]        \* "reset"
 
 AllOk(v) == v.c12.v \in {"ok", "skip"} /\ v.c13.v \in {"ok", "skip"} /\ v.c14.v \in {"ok", "skip"}
